@@ -149,6 +149,24 @@ func init() {
 		}
 		return []Value{{T: tInt, S: r}}
 	})
+	reg("strings.IndexRune", true, func(v *FnV, st *State, call *ast.CallExpr, recv *Value, args []Value) []Value {
+		// for an ASCII needle this is IndexByte; otherwise only the range of the result is known
+		s, c := args[0].S, args[1].S
+		if n, ok := litInt(c); ok && n.IsInt64() && n.Int64() >= 0 && n.Int64() < 128 {
+			return stdModels["strings.IndexByte"].f(v, st, call, recv, args)
+		}
+		r := st.freshVal("indexrune", tInt)
+		st.assume(sAnd(sLe("(- 1)", r.S), sLt(r.S, sx("slen", s))))
+		return []Value{r}
+	})
+	reg("strings.ContainsRune", true, func(v *FnV, st *State, call *ast.CallExpr, recv *Value, args []Value) []Value {
+		c := args[1].S
+		if n, ok := litInt(c); ok && n.IsInt64() && n.Int64() >= 0 && n.Int64() < 128 {
+			r := stdModels["strings.IndexByte"].f(v, st, call, recv, args)
+			return []Value{{T: tBool, S: sGe(r[0].S, "0")}}
+		}
+		return []Value{st.freshVal("containsrune", tBool)}
+	})
 	reg("strings.HasSuffix", true, func(v *FnV, st *State, call *ast.CallExpr, recv *Value, args []Value) []Value {
 		s, t := args[0].S, args[1].S
 		if lit, ok := v.litContent(t); ok && len(lit) <= 8 {
